@@ -7,7 +7,7 @@ SF = 'optiland/surfaces/surface_factory.py'
 OP = 'optiland/optic.py'
 
 
-def arbitrary_lens(c, n, stop=None, plane=(), finite_object=True, tilts=False, prefix=''):
+def arbitrary_lens(c, n, stop=None, plane=(), finite_object=True, tilts=False, prefix='', special=None, mirrors=()):
     """Optic with n surfaces whose vertices, radii, conics, indices are free symbols, satisfying
     WF: surface 0 is the ObjectSurface, z[1] = 0, material_pre[k] is material_post[k-1],
     at most one stop.  Built with the constructors directly, *not* through add_surface, so that it
@@ -26,8 +26,13 @@ def arbitrary_lens(c, n, stop=None, plane=(), finite_object=True, tilts=False, p
             z = 0.0
         else:
             z = c.real(prefix + 'z%d' % j, -30.0, 60.0)
-        nj = c.real(prefix + 'n%d' % j, 1.0, 2.5, positive=True)
-        mat = mats.IdealMaterial(n=nj, k=0.0)
+        if j in mirrors and j >= 1:
+            # a mirror: the medium behind it *is* the medium in front of it (same object)
+            nj = view['n'][j - 1]
+            mat = view['mat'][j - 1]
+        else:
+            nj = c.real(prefix + 'n%d' % j, 1.0, 2.5, positive=True)
+            mat = mats.IdealMaterial(n=nj, k=0.0)
         kw = {}
         if tilts and j >= 1:
             kw = dict(x=c.real(prefix + 'dx%d' % j, -1, 1), y=c.real(prefix + 'dy%d' % j, -1, 1),
@@ -39,11 +44,22 @@ def arbitrary_lens(c, n, stop=None, plane=(), finite_object=True, tilts=False, p
         else:
             R = c.real(prefix + 'R%d' % j, -80.0, 80.0, nonzero=True)
             k = c.real(prefix + 'k%d' % j, -2.0, 1.0)
-            geo = geos.StandardGeometry(cs, R, k)
+            kind = (special or {}).get(j)
+            if kind == 'even_asphere':
+                co = [c.real(prefix + 'a%d_%d' % (j, i), -1e-3, 1e-3) for i in range(3)]
+                geo = geos.EvenAsphere(cs, R, k, 1e-10, 100, co)
+            elif kind in ('polynomial', 'chebyshev'):
+                co = [[c.real(prefix + 'p%d_%d%d' % (j, a, b), -1e-3, 1e-3) for b in range(2)] for a in range(2)]
+                if kind == 'polynomial':
+                    geo = geos.PolynomialGeometry(cs, R, k, 1e-10, 100, c.np.array(co))
+                else:
+                    geo = geos.ChebyshevPolynomialGeometry(cs, R, k, 1e-10, 100, c.np.array(co), 10.0, 10.0)
+            else:
+                geo = geos.StandardGeometry(cs, R, k)
         if j == 0:
             s = surfs.ObjectSurface(geo, mat)
         else:
-            s = surfs.Surface(geo, view['mat'][j - 1], mat, is_stop=(j == stop))
+            s = surfs.Surface(geo, view['mat'][j - 1], mat, is_stop=(j == stop), is_reflective=(j in mirrors))
         lens.surface_group.surfaces.append(s)
         view['z'].append(z)
         view['R'].append(R)
